@@ -14,6 +14,7 @@
 #include "luamodel/luamodel.h"
 #include <fstream>
 #include <unistd.h>
+#include "luaops.h"
 #endif
 
 struct State {
@@ -31,6 +32,7 @@ struct State {
   std::map<std::string, std::string> luafiles;
 #ifdef VERIF_WITH_LUA
   std::unique_ptr<std::ofstream> luaOut;
+  LuaDescState ld;
 #endif
   void fresh(const std::string &id) {
     C.fresh();
@@ -409,6 +411,11 @@ static void process_line(State &s, const std::string &line) {
         }
       }
 #ifdef VERIF_WITH_LUA
+      else if (cmd == "luadesc" || cmd == "ldload" || cmd == "csfull") {   // C19: harness/luaops.h
+        if (cmd == "ldload") s.customs.clear();
+        std::string o = luaOp(cmd, t, s.ld, s.m, s.C, s.luafiles, s.tag);
+        if (!o.empty()) emit(s, cmd, o);
+      }
       else if (cmd == "luafile") {
         // luafile <name> ... luaend : the text of a Lua model, written to a private temporary file
         std::string nm = t.next();
